@@ -22,6 +22,7 @@ mod fsfam;
 mod c08;
 mod c09;
 mod c17;
+mod c19;
 
 use std::io::{BufWriter, Write};
 
@@ -57,6 +58,7 @@ fn main() {
                 "C08" => c08::gen(tier, seed, &mut out),
                 "C09" => c09::gen(tier, seed, &mut out),
                 "C17" => c17::gen(tier, seed, &mut out),
+                "C19" => c19::gen(tier, seed, &mut out),
                 _ => {
                     eprintln!("unknown property {}", prop);
                     std::process::exit(2);
@@ -96,6 +98,7 @@ fn main() {
             }
         }
         "c10child" => c10::child(&args[2], &args[3]),
+        "c19w" => c19::worker(&args[2..], &mut out),
         _ => {
             eprintln!("unknown command");
             std::process::exit(2);
@@ -165,6 +168,9 @@ fn replay_one(toks: &[&str]) -> String {
             let scratch = common::scratch_root().join("c17r");
             std::fs::create_dir_all(&scratch).unwrap();
             let r = c17::observe(&toks[1..], &scratch);
+        "C19" => {
+            let scratch = c19::scratch();
+            let r = c19::observe(&toks[1..], &scratch, 100);
             common::rm_rf(&scratch);
             r
         }
